@@ -4,7 +4,8 @@
 cd /verif
 declare -A CHECKS=( [B01]="C01 C03 C04 C07 C11 C12 C13 C17 C20" [B02]="C02 C10 C06 C19 C18 C20 C13 C09" [B03]="C05 C14 C15 C01 C07 C08 C09"
   [B04]="C09 C14 C03" [B05]="C08 C16 C17 C03" [B06]="C20 C13 C11" [B07]="C18 C01 C04 C12 C13 C03" [B08]="C17 C04 C13 C03 C20"
-  [B09]="C06 C19 C02 C03" [B10]="C03" )
-for k in ${1:-B01 B02 B03 B04 B05 B06 B07 B08 B09 B10}; do
+  [B09]="C06 C19 C02 C03" [B10]="C03"
+  [B11]="C02 C10 C06 C19 C20 C09" [B12]="C16 C08" [B13]="C01 C17 C07 C04 C13" [B14]="C09 C14 C03 C17" [B15]="C15 C05 C01 C14" )
+for k in ${1:-B01 B02 B03 B04 B05 B06 B07 B08 B09 B10 B11 B12 B13 B14 B15}; do
   echo "--- $k: ${CHECKS[$k]}"; DIFFLINES=0 tools/mutrun.sh /verif/benign/$k/patch.diff -- ${CHECKS[$k]} 2>&1 | grep "^==\|HARNESS" | cut -c1-200
 done
